@@ -675,6 +675,7 @@ func init() {
 			"during the run a discovery update removes a third of the targets inside the retry sleep, a later one re-adds most of them, then a reload keeps or drops job jb; every second case also runs the real coordinator against a stub shard with unlimited room; " +
 			"monitors: arrival/departure/outcome/in-flight count of every request at the targets, Explore.Get results polled every 40 ms (not in the -race pass), POST bodies at the stub shard; oracle = per-target probe-lifecycle automaton per presence period (probed once asked for, single flight, retry no earlier than the interval and within interval+10 s, silence after success, at most one probe after removal), estimate = payload counts only after a success, no assignment before a successful probe; " +
 			"plus cases in which a job's HTTP client cannot be built when its targets are first asked for (CA file missing at that reload) and can after a later reload: within interval + 10 s of the repair every target must have been probed and carry a healthy estimate; and cases in which a reload changes a job's metric relabel rules and params before a new target of that job is probed for the first time (estimate under the new rules, request with the new params); and cases with a configured param that some targets override through a __param_ label (every probe carries its own target's params, whatever was probed before); " +
+			"plus 1/4 flood cases: more than 10000 + workers targets are asked for in one period while every probe is held at the target until the asking stalls or ends (the explorer's queue holds 10000): every one must be probed exactly once and carry the probe's estimate; " +
 			"one probe body in ten has 2500-5500 samples (several 64 KiB parser blocks); " +
 			"a -race pass repeats 2 cases without harness reads; non-trivial = at least half of the targets were probed; distinct = parameter tuple + target script hash",
 		Assumptions: []string{
@@ -683,9 +684,9 @@ func init() {
 		},
 		NumCases: func(tier string) int {
 			if tier == "thorough" {
-				return c20NumCases(tier) + c20LateThorough + c20ReloadThorough + c20ParamThorough
+				return c20NumCases(tier) + c20LateThorough + c20ReloadThorough + c20ParamThorough + c20FloodThorough
 			}
-			return c20NumCases(tier) + c20LateQuick + c20ReloadQuick + c20ParamQuick
+			return c20NumCases(tier) + c20LateQuick + c20ReloadQuick + c20ParamQuick + c20FloodQuick
 		},
 		Run: func(w *core.WorkerCtx, idx int) *core.CaseResult {
 			if n := c20NumCases(w.Tier); idx >= n {
@@ -696,6 +697,13 @@ func init() {
 				nr := c20ReloadQuick
 				if w.Tier == "thorough" {
 					nr = c20ReloadThorough
+				}
+				np := c20ParamQuick
+				if w.Tier == "thorough" {
+					np = c20ParamThorough
+				}
+				if idx-n >= nl+nr+np {
+					return runC20Flood(w, idx-n-nl-nr-np)
 				}
 				if idx-n >= nl+nr {
 					return runC20Params(w, idx-n-nl-nr)
